@@ -15,7 +15,7 @@ worlds that satisfy `WorldInv` - which holds in the empty world and is preserved
 sources written with fresh stamps, outputs deleted, command lines changed, commands made to fail or to succeed), by
 every build and by dropping the database (`C18_world_invariant`).
 -/
-import LLBuild.Lemmas.NinjaWorldRuns
+import LLBuild.Lemmas.NinjaWorldGraph
 
 namespace LLBuild.NinjaWorld
 open LLBuild.NinjaBuild LLBuild.NinjaBuild.Gen
@@ -46,7 +46,7 @@ instance (cs : List Command) (s : Step) : Decidable (s.ok cs) := by
   cases s <;> simp only [Step.ok] <;> infer_instance
 
 theorem WorldInv.dropDb {m : Manifest} {w : World} (h : WorldInv m w) : WorldInv m w.dropDb := by
-  refine ⟨⟨h.inv0.fileStamps, ?_, ?_, ?_, ?_, ?_, h.inv0.phonyAbsent⟩, ?_, ?_, ?_, ?_⟩
+  refine ⟨⟨h.inv0.fileStamps, ?_, ?_, ?_, ?_, ?_, h.inv0.phonyAbsent⟩, ?_, ?_, ?_, ?_, ?_, ?_⟩
   · intro p r hr; simp [World.dropDb] at hr
   · intro n r hr; simp [World.dropDb] at hr
   · intro p r hr; simp [World.dropDb] at hr
@@ -54,8 +54,14 @@ theorem WorldInv.dropDb {m : Manifest} {w : World} (h : WorldInv m w) : WorldInv
   · intro c _ r hr; simp [World.dropDb] at hr
   · intro c _ _ r hr; simp [World.dropDb] at hr
   · intro c _ r hr; simp [World.dropDb] at hr
-  · intro before c rest hat hp o ho f hf
-    exact prov_mono (h.t before c rest hat hp o ho f hf) (fun _ r hr _ => by simp [World.dropDb] at hr) (fun _ _ g hg _ => hg)
+  · intro c _ r hr; simp [World.dropDb] at hr
+  · intro n r hr; simp [World.dropDb] at hr
+  · intro before c rest hat hp o ho f hf hu
+    have hu' : Usable w c := by
+      rcases hu with hg | ⟨r, hr, _⟩
+      · exact Or.inl hg
+      · simp [World.dropDb] at hr
+    exact prov_mono (h.t before c rest hat hp o ho f hf hu') (fun _ r hr _ => by simp [World.dropDb] at hr) (fun _ _ g hg _ => hg)
   · intro _ _ _ _ _ r hr; simp [World.dropDb] at hr
 
 /-- **The invariant.**  `WorldInv` holds in the empty world, and every step of a history preserves it: an edit (a source
@@ -128,9 +134,8 @@ theorem C18_converges (m : Manifest) (hwf : m.WF) (targets : List Path) (w : Wor
       (buildOnce m targets w).1.content o =
         cleanContent m (buildOnce m targets w).1.cmdline (buildOnce m targets w).1.content m.cmds.reverse o := by
   intro c hc hp hn o ho
-  have hq := build_quiet m hwf targets hinv.inv0 hok
   exact Quiet.converges hwf (hinv.build hwf targets) (fun _ _ _ _ _ _ _ _ => trivial)
-    (⟨hq.1, fun c hc hn _ => hq.2 c hc hn⟩ : Quiet m (demanded m targets) (fun _ => True) (buildFull m targets w).1) hc hp hn trivial ho
+    (quiet_after_build m hwf targets hinv hok) hc hp hn trivial ho
 
 /-- every requested output, in particular -/
 theorem C18_converges_targets (m : Manifest) (hwf : m.WF) (targets : List Path) (w : World) (hinv : WorldInv m w)
@@ -150,10 +155,8 @@ theorem C18_converges_partial (m : Manifest) (hwf : m.WF) (targets : List Path) 
       (buildOnce m targets w).1.content o =
         cleanContent m (buildOnce m targets w).1.cmdline (buildOnce m targets w).1.content m.cmds.reverse o := by
   intro c hc hp hn hg o ho
-  have hq := build_quiet_cmd m hwf targets hinv.inv0
   exact Quiet.converges hwf (hinv.build hwf targets) (goodIn_closed m _)
-    (⟨hq.1, fun c hc hn hg => hq.2 c hc hn (hg c (DepOn.refl c))⟩ :
-      Quiet m (demanded m targets) (GoodIn m (buildFull m targets w).2) (buildFull m targets w).1) hc hp hn hg ho
+    (quiet_after_build_good m hwf targets hinv) hc hp hn hg ho
 
 /-! ### null rebuild -/
 
@@ -166,8 +169,7 @@ theorem C18_null_rebuild (m : Manifest) (hwf : m.WF) (targets : List Path) (w : 
     (buildOnce m targets (buildOnce m targets w).1).2 = [] ∧
     (buildFull m targets (buildOnce m targets w).1).2 = [] ∧
     SameUpToBuiltAt (buildOnce m targets w).1 (buildOnce m targets (buildOnce m targets w).1).1 := by
-  have hq := build_quiet m hwf targets hinv.inv0 hok
-  have := quiet_build m targets (buildFull m targets w).1 hq.1 hq.2
+  have := (quiet_after_build m hwf targets hinv hok).build_nothing hwf
   simp only [buildOnce]
   exact ⟨by rw [this.1]; rfl, this.1, this.2⟩
 
@@ -183,8 +185,7 @@ theorem C18_minimal (m : Manifest) (hwf : m.WF) (targets : List Path) (w : World
     (hok : buildFailed (buildFull m targets w).2 = false) (es : List Edit) :
     ∀ e ∈ (buildFull m targets (es.foldl applyEdit (buildOnce m targets w).1)).2,
       ∃ c ∈ m.cmds, c.name = e.1 ∧ Affected m es c := by
-  have hq := build_quiet m hwf targets hinv.inv0 hok
-  exact minimal_build m hwf targets (buildFull m targets w).1 ⟨hq.1, fun c hc hn _ => hq.2 c hc hn⟩ es
+  exact minimal_build m hwf targets (buildFull m targets w).1 (quiet_after_build m hwf targets hinv hok) es
 
 /-- **C18_order_only_world**: "Order-only inputs impose ordering without triggering rebuilds".  After a build that
 reports no failure, edits that only touch files which are no command's output and no command's explicit, implicit or
@@ -240,20 +241,21 @@ theorem C18_command_line_change_world (m : Manifest) (hwf : m.WF) (targets : Lis
     | none => rfl
     | some r =>
       simp only [Bool.or_eq_true, bne_iff_ne, ne_eq]
-      left
+      left; right
       have := (C18_command_line_change_reruns (kOf wi c) r.value (c.outs.map wi.info) {} (accOf m.cmds wi c) hk
         (by simpa [kOf, Command.cmd, hcl] using hchg r hr)).1
       simp only [kOf] at this
       rw [this]; simp
   · apply shortcut_false_of_prior hk
     intro v hv _
-    rw [hdb] at hv
-    cases hr : w.cmdDb c.name with
-    | none => rw [hr] at hv; cases hv
+    cases hpr : priorRow wi c with
+    | none => rw [hpr] at hv; cases hv
     | some r =>
-      rw [hr] at hv
+      rw [hpr] at hv
       simp only [Option.map_some, Option.some.injEq] at hv
       subst hv
+      have hr := (priorRow_some.1 hpr).1
+      rw [hdb] at hr
       simpa [kOf, Command.cmd, hcl] using hchg r hr
 
 /-- **C18_output_deletion_world**: a needed real command one of whose outputs is missing (`Edit.delete` after a build)
@@ -274,14 +276,14 @@ theorem C18_output_deletion_world (m : Manifest) (hwf : m.WF) (targets : List Pa
     | none => rfl
     | some r =>
       simp only [Bool.or_eq_true, bne_iff_ne, ne_eq]
-      left
+      left; right
       intro hv
       obtain ⟨_, _, hmatch⟩ := valid_infosMatch hp hv
       obtain ⟨i, hi, hio⟩ := List.getElem_of_mem ho
       have := (hmatch i hi).1
       rw [hio, hmiss] at this
       cases this
-  · cases hs : shortcut {} (kOf wi c) (accOf m.cmds wi c) ((wi.cmdDb c.name).map (·.value)) (c.outs.map wi.info) with
+  · cases hs : shortcut {} (kOf wi c) (accOf m.cmds wi c) ((priorRow wi c).map (·.value)) (c.outs.map wi.info) with
     | false => rfl
     | true =>
       have := shortcut_outs_exist hs (wi.info o) (List.mem_map.2 ⟨o, ho, rfl⟩)
@@ -336,6 +338,352 @@ theorem C18_failed_is_retried (m : Manifest) (hwf : m.WF) (targets : List Path) 
   · exact Or.inl h
   · exact Or.inr (Or.inl h)
   · exact Or.inr (Or.inr h)
+
+/-! ### the converse: what must run, runs -/
+
+/-- a source file written (or touched) by a history edit: new stamp above everything, input rule out of date -/
+theorem source_edit_hot (m : Manifest) (hwf : m.WF) (targets : List Path) (w1 : World) (hinv : WorldInv m w1) {s : Path}
+    (hs : producer m.cmds s = none) {x : Content} {e : Edit}
+    (he : e = .write s x ∨ (e = .touch s ∧ ∃ f, w1.files s = some f ∧ f.content = x)) (hd : s ∈ demanded m targets) :
+    WorldInv m (applyEdit w1 e) ∧ w1.clock ≤ (applyEdit w1 e).clock ∧
+    (∀ q ∈ m.cmds, ∀ o ∈ q.outs, ∀ g, (applyEdit w1 e).files o = some g → g.stamp ≤ w1.clock) ∧
+    Hot m.cmds ((applyEdit w1 e).epoch + 1) w1.clock (applyEdit w1 e) (buildFull m targets (applyEdit w1 e)).1 s := by
+  have hw : applyEdit w1 e = { w1 with files := upd w1.files s (some ⟨x, w1.clock + 1⟩), clock := w1.clock + 1 } := by
+    rcases he with rfl | ⟨rfl, f, hf, rfl⟩
+    · rfl
+    · simp [applyEdit, hf]
+  have hok' : e.ok m.cmds := by rcases he with rfl | ⟨rfl, _⟩ <;> exact hs
+  refine ⟨hinv.edit hwf hok', by rw [hw]; exact Nat.le_succ _, ?_, ?_⟩
+  · intro q hq o ho g hg
+    rw [hw] at hg
+    have hne : o ≠ s := fun e' => by subst e'; rw [producer_of_mem hwf hq ho] at hs; cases hs
+    simp only [upd, hne, ↓reduceIte] at hg
+    exact hinv.inv0.fileStamps o g hg
+  · right
+    refine ⟨hs, ?_, ⟨x, w1.clock + 1⟩, by rw [hw]; simp, Nat.lt_succ_self _⟩
+    have hsrc := (stepAll_sources m (demanded m targets) ((applyEdit w1 e).epoch + 1) hwf (started m targets (applyEdit w1 e))).1
+    rw [buildFull_eq, hsrc]
+    obtain ⟨r, hr, hre⟩ := refreshSrcs_changed m.cmds ((applyEdit w1 e).epoch + 1)
+      (demanded m targets ++ storedKeys m (demanded m targets) (applyEdit w1 e))
+      { applyEdit w1 e with epoch := (applyEdit w1 e).epoch + 1 } (List.mem_append_left _ hd) hs (by
+        intro r hr
+        have hr1 : w1.srcDb s = some r := by rw [hw] at hr; exact hr
+        have hst := outputInfo_stamp (hinv.inv0.srcStamps s r hr1)
+        have hinfo : ({ applyEdit w1 e with epoch := (applyEdit w1 e).epoch + 1 } : World).info s = ⟨1, 1, 1, 1, ⟨w1.clock + 1, 0⟩⟩ := by
+          rw [hw]; simp [World.info, infoOf]
+        rw [hinfo]
+        constructor
+        · cases hv : inputIsResultValid r.value ⟨1, 1, 1, 1, ⟨w1.clock + 1, 0⟩⟩ with
+          | false => rfl
+          | true =>
+            simp only [inputIsResultValid, Bool.and_eq_true] at hv
+            have hm := same_mtime hv.2
+            have : w1.clock + 1 ≤ w1.clock := by rw [hm] at hst; simpa using hst
+            omega
+        · intro heq
+          have : (⟨1, 1, 1, 1, ⟨w1.clock + 1, 0⟩⟩ : FInfo) ∈ r.value.infos := by
+            rw [heq]; simp [inputValue, FInfo.isMissing, BuildValue.existing]
+          have h2 := hinv.inv0.srcStamps s r hr1 _ this
+          have : w1.clock + 1 ≤ w1.clock := by simpa using h2
+          omega)
+    exact ⟨r, hr, by rw [hre]; exact Nat.le_refl _⟩
+
+/-- **C18_source_input_triggers_world**: "implicit inputs and depfile-discovered inputs trigger rebuilds" (and explicit
+ones).  In any world of a history, when a source file that a needed real command READS - as an explicit, implicit or
+depfile-discovered input, directly or through phony aliases - is written or touched, the next build that reports no
+failure EXECUTES the command.  There is no exception for `restat` or `generator` commands: a generator command is exempt
+from the command-line comparison only, and the update-if-newer shortcut cannot fire because the edited input is newer
+than every output.  (What restat prunes are the DEPENDENTS: `C18_restat_prunes_world`.) -/
+theorem C18_source_input_triggers_world (m : Manifest) (hwf : m.WF) (targets : List Path) (w1 : World) (hinv : WorldInv m w1)
+    {s : Path} (hs : producer m.cmds s = none) {x : Content} {e : Edit}
+    (he : e = .write s x ∨ (e = .touch s ∧ ∃ f, w1.files s = some f ∧ f.content = x))
+    (hok : buildFailed (buildFull m targets (applyEdit w1 e)).2 = false)
+    {before rest : List Command} {c : Command} (hsplit : m.cmds = before.reverse ++ c :: rest) (hp : c.phony = false)
+    (hn : c.neededIn (demanded m targets) = true) (hreads : s ∈ readsOf before c) :
+    ⟨c.name, true⟩ ∈ (buildOnce m targets (applyEdit w1 e)).2 := by
+  have hat : At m.cmds before c rest := ⟨hsplit, hwf⟩
+  have hclosed := demanded_closed m hwf targets hat.mem hn
+  have hG : GClosed m (fun _ => True) := fun _ _ _ _ _ _ _ _ => trivial
+  have hsd : s ∈ demanded m targets := by
+    rcases mem_readsOf hreads with ⟨k, hk, hsk⟩ | hsd
+    · have hkk : k ∈ depKeys c := by simp only [depKeys, List.mem_append] at hk ⊢; exact Or.inl hk
+      exact (resolve_demanded hwf hG before (c :: rest) hsplit k (hclosed k (depKeys_sub_insAll c k hkk))
+        (KeyIn.of_dep hG hat trivial hkk) s hsk).1
+    · have hd : c.hasDeps = true := by
+        cases hd : c.hasDeps with
+        | true => rfl
+        | false => rw [hat.cmdWF.deps hd] at hsd; cases hsd
+      exact hclosed s (by simp [insAll, hd, hsd])
+  obtain ⟨hinv', hcl, hTout, hhot⟩ := source_edit_hot m hwf targets w1 hinv hs he hsd
+  exact runsOf_executed (hot_read_runs m hwf targets hinv' hcl hTout hok hat hp hn ⟨s, hreads, hhot⟩)
+
+theorem mem_readsOf_of_input {before : List Command} {c : Command} {s : Path} (hs : ∀ q ∈ before, s ∉ q.outs)
+    (h : s ∈ c.exp ++ c.imp) : s ∈ readsOf before c := by
+  have : resolve before s = [s] := resolve_self before (fun q hq hsq => absurd hsq (hs q hq))
+  simp only [readsOf, List.mem_append, List.mem_flatMap]
+  exact Or.inl ⟨s, by simpa using h, by rw [this]; simp⟩
+
+/-- an edited EXPLICIT input re-runs the command -/
+theorem C18_explicit_input_triggers_world (m : Manifest) (hwf : m.WF) (targets : List Path) (w1 : World) (hinv : WorldInv m w1)
+    {s : Path} (hs : producer m.cmds s = none) {x : Content} {e : Edit}
+    (he : e = .write s x ∨ (e = .touch s ∧ ∃ f, w1.files s = some f ∧ f.content = x))
+    (hok : buildFailed (buildFull m targets (applyEdit w1 e)).2 = false)
+    {c : Command} (hc : c ∈ m.cmds) (hp : c.phony = false) (hn : c.neededIn (demanded m targets) = true) (hin : s ∈ c.exp) :
+    ⟨c.name, true⟩ ∈ (buildOnce m targets (applyEdit w1 e)).2 := by
+  obtain ⟨before, rest, hat⟩ := At.of_mem hwf hc
+  exact C18_source_input_triggers_world m hwf targets w1 hinv hs he hok hat.split hp hn
+    (mem_readsOf_of_input (fun q hq hsq => by rw [producer_none_iff] at hs; exact hs q (hat.mem_before hq) hsq) (by simp [hin]))
+
+/-- an edited IMPLICIT input re-runs the command -/
+theorem C18_implicit_input_triggers_world (m : Manifest) (hwf : m.WF) (targets : List Path) (w1 : World) (hinv : WorldInv m w1)
+    {s : Path} (hs : producer m.cmds s = none) {x : Content} {e : Edit}
+    (he : e = .write s x ∨ (e = .touch s ∧ ∃ f, w1.files s = some f ∧ f.content = x))
+    (hok : buildFailed (buildFull m targets (applyEdit w1 e)).2 = false)
+    {c : Command} (hc : c ∈ m.cmds) (hp : c.phony = false) (hn : c.neededIn (demanded m targets) = true) (hin : s ∈ c.imp) :
+    ⟨c.name, true⟩ ∈ (buildOnce m targets (applyEdit w1 e)).2 := by
+  obtain ⟨before, rest, hat⟩ := At.of_mem hwf hc
+  exact C18_source_input_triggers_world m hwf targets w1 hinv hs he hok hat.split hp hn
+    (mem_readsOf_of_input (fun q hq hsq => by rw [producer_none_iff] at hs; exact hs q (hat.mem_before hq) hsq) (by simp [hin]))
+
+/-- an edited DEPFILE-DISCOVERED input (an entry of the depfile the command wrote) re-runs the command - also when the
+manifest lists the file as an order-only input only -/
+theorem C18_depfile_input_triggers_world (m : Manifest) (hwf : m.WF) (targets : List Path) (w1 : World) (hinv : WorldInv m w1)
+    {s : Path} (hs : producer m.cmds s = none) {x : Content} {e : Edit}
+    (he : e = .write s x ∨ (e = .touch s ∧ ∃ f, w1.files s = some f ∧ f.content = x))
+    (hok : buildFailed (buildFull m targets (applyEdit w1 e)).2 = false)
+    {c : Command} (hc : c ∈ m.cmds) (hp : c.phony = false) (hn : c.neededIn (demanded m targets) = true) (hin : s ∈ c.deps) :
+    ⟨c.name, true⟩ ∈ (buildOnce m targets (applyEdit w1 e)).2 := by
+  obtain ⟨before, rest, hat⟩ := At.of_mem hwf hc
+  exact C18_source_input_triggers_world m hwf targets w1 hinv hs he hok hat.split hp hn (by simp [readsOf, hin])
+
+/-- **C18_rewritten_input_triggers_world** (the transitive step): in a build that reports no failure, every needed real
+command that reads a file which THIS build rewrote - a new stamp; with new content or not - is executed by this build.
+With `C18_source_input_triggers_world` this is the converse of `C18_minimal` along every chain whose outputs really
+change: edited source ⇒ its readers run ⇒ the readers of what they rewrote run ⇒ … -/
+theorem C18_rewritten_input_triggers_world (m : Manifest) (hwf : m.WF) (targets : List Path) (w : World) (hinv : WorldInv m w)
+    (hok : buildFailed (buildFull m targets w).2 = false)
+    {before rest : List Command} {c : Command} (hsplit : m.cmds = before.reverse ++ c :: rest) (hp : c.phony = false)
+    (hn : c.neededIn (demanded m targets) = true) {f : Path} (hreads : f ∈ readsOf before c)
+    (hch : (buildOnce m targets w).1.files f ≠ w.files f) :
+    ⟨c.name, true⟩ ∈ (buildOnce m targets w).2 :=
+  runsOf_executed (hot_read_runs m hwf targets hinv (Nat.le_refl _)
+    (fun _ _ o _ g hg => hinv.inv0.fileStamps o g hg) hok ⟨hsplit, hwf⟩ hp hn ⟨f, hreads, hot_of_changed hch⟩)
+
+/-- **C18_restat_prunes_world**: restat pruning.  A needed command that was up to date when the build started (`needsTask
+= false`, its source inputs settled) and all of whose generated inputs are produced by restat-style commands which the
+build leaves with the very outputs they had - whether it executed them (they rewrote identical content) or not - does
+NOT have its task run: no dependent of a restat command runs when the command reproduces its outputs. -/
+theorem C18_restat_prunes_world (m : Manifest) (hwf : m.WF) (targets : List Path) (w : World) (hinv : WorldInv m w)
+    (hok : buildFailed (buildFull m targets w).2 = false) {d : Command} (hd : d ∈ m.cmds)
+    (hquiet : needsTask m.cmds w d = false)
+    (hsrc : ∀ k ∈ depKeys d, producer m.cmds k = none → SrcSettled w k)
+    (hprod : ∀ k ∈ depKeys d, ∀ q ∈ m.cmds, k ∈ q.outs → q.phony = false ∧ q.restat = true ∧
+      (∃ r, w.cmdDb q.name = some r ∧ commandIsResultValid (kOf w q) r.value (q.outs.map w.info) = .valid ∧
+        r.value.hash = w.cmdline q.name) ∧
+      ∀ o ∈ q.outs, (buildOnce m targets w).1.files o = w.files o) :
+    (∀ x, (d.name, x) ∉ (buildFull m targets w).2) ∧ ∀ b, (⟨d.name, b⟩ : CommandRun) ∉ (buildOnce m targets w).2 := by
+  have hsdb : (started m targets w).cmdDb = w.cmdDb := refreshSrcs_cmdDb _ _ _ _
+  have hrows := refreshSrcs_rows m.cmds (w.epoch + 1) (demanded m targets ++ storedKeys m (demanded m targets) w)
+    { w with epoch := w.epoch + 1 }
+  have hvcsrc : ∀ k ∈ depKeys d, producer m.cmds k = none →
+      ((started m targets w).srcDb k).map vc = (w.srcDb k).map vc := fun k hk hnone => by
+    have : SrcSettled ({ w with epoch := w.epoch + 1 } : World) k := hsrc k hk hnone
+    exact refreshSrcs_vc _ _ _ _ this
+  have h0 : needsTask m.cmds (started m targets w) d = false := by
+    rw [← hquiet]
+    apply needsTask_congr (hinv.d.depsInv d hd) (by rw [hsdb])
+      (by rw [show (started m targets w).depDb = w.depDb from hrows.2.1]) (by rw [(started_cmdline m targets w).1])
+      (fun o _ => by rw [started_files])
+    intro k hk
+    unfold resOf
+    cases hp : producer m.cmds k with
+    | none => exact hvcsrc k hk hp
+    | some q => simp only [hsdb]
+  have hnone : ∀ x, (d.name, x) ∉ (buildFull m targets w).2 := by
+    apply unchanged_inputs_no_run m hwf targets hinv hd h0
+    intro k hk
+    cases hp : producer m.cmds k with
+    | none =>
+      have hsrcs := (stepAll_sources m (demanded m targets) (w.epoch + 1) hwf (started m targets w)).1
+      simp only [resOf, hp, buildFull_eq, hsrcs]
+    | some q =>
+      obtain ⟨hqm, hkq⟩ := producer_some hp
+      obtain ⟨hqp, hrs, ⟨r, hr, hv, hh⟩, hfiles⟩ := hprod k hk q hqm hkq
+      exact restat_views_unchanged m hwf targets hinv hok hqm hqp hrs hr hv hh hfiles k hkq
+  refine ⟨hnone, fun b hb => ?_⟩
+  rcases mem_runsOf hb with ⟨_, h1⟩ | ⟨_, h1⟩
+  · exact hnone _ h1
+  · exact hnone _ h1
+
+/-! ### graph edits -/
+
+/-- a step of a history that also edits the dependency graph: an ordinary step, or the list of build statements is
+replaced (the command lines of new statements are then set by `Edit.setHash` steps); files and database stay -/
+inductive GStep
+  | step (s : Step)
+  | graph (cs' : List Command)
+
+/-- the state of such a history: the current statements and the world.  `tg` = the targets of a build, given the
+statements (e.g. the default targets: the outputs that are no input) -/
+def runGStep (sem : Nat → Path → List (Option Content) → Content) (tg : List Command → List Path) (st : List Command × World) :
+    GStep → List Command × World
+  | .step s => (st.1, runStep ⟨st.1, sem⟩ (tg st.1) st.2 s)
+  | .graph cs' => (cs', st.2)
+
+/-- a step is admissible: an ordinary step as before; a graph edit when every statement of the new list is kept or
+fresh (`GraphOk`) -/
+def GStep.ok (st : List Command × World) : GStep → Prop
+  | .step s => s.ok st.1
+  | .graph cs' => GraphOk st.1 cs' st.2
+
+/-- all steps of a history are admissible in the state they are applied to -/
+def GHistOk (sem : Nat → Path → List (Option Content) → Content) (tg : List Command → List Path) :
+    List Command × World → List GStep → Prop
+  | _, [] => True
+  | st, g :: gs => g.ok st ∧ GHistOk sem tg (runGStep sem tg st g) gs
+
+instance (cs cs' : List Command) (w : World) : Decidable (GraphOk cs cs' w) :=
+  decidable_of_iff
+    (wfFrom [] cs' = true ∧
+     (∀ c ∈ cs', c ∈ cs → ∀ k ∈ c.exp ++ c.imp ++ c.oo ++ c.deps, sameKeyB cs cs' k = true) ∧
+     (∀ c ∈ cs', c ∉ cs → staleRowB cs w c = true ∧ c.generator = false ∧ (c.phony = true → ∀ o ∈ c.outs, w.files o = none)))
+    ⟨fun h => ⟨h.1, h.2.1, h.2.2⟩, fun h => ⟨h.wf', h.kept, h.fresh⟩⟩
+
+instance (st : List Command × World) (g : GStep) : Decidable (g.ok st) := by
+  cases g <;> simp only [GStep.ok] <;> infer_instance
+
+instance (sem : Nat → Path → List (Option Content) → Content) (tg : List Command → List Path) :
+    (st : List Command × World) → (gs : List GStep) → Decidable (GHistOk sem tg st gs)
+  | _, [] => inferInstanceAs (Decidable True)
+  | st, g :: gs =>
+    have : Decidable (GHistOk sem tg (runGStep sem tg st g) gs) := instDecidableGHistOk sem tg _ gs
+    inferInstanceAs (Decidable (g.ok st ∧ GHistOk sem tg (runGStep sem tg st g) gs))
+
+/-- **C18_world_invariant_graph**: `WorldInv` also survives graph edits.  From any well-formed manifest and the empty
+world, along any history of ordinary steps (edits, builds, loss of the database) and graph edits in which every statement
+of the new list is KEPT (a statement of the old list; each of its inputs is produced by the statement that produced it, or
+by a real statement with the same rule key and outputs - an edited producer), FRESH (not a statement of the old list, no
+database row under its rule key, not a generator, its alias not a file) or EDITED (as FRESH, but the database holds a row
+under its rule key that was stored under ANOTHER signature: the statement's explicit / implicit / order-only input lists
+were edited - with or without a change of its command line; F56, repaired: `C18_input_list_edit_changes_signature`) -
+i.e. statements are added, removed, given another output list under a rule key never used, or get other input lists -
+the manifest stays well formed and the world satisfies `WorldInv` for the CURRENT manifest.  Hence every theorem of this
+file (`C18_converges`, `C18_null_rebuild`, `C18_minimal`, …, all stated for an arbitrary manifest and a world with
+`WorldInv`) holds at every point of such a history: rows of removed statements stay in the database without harm, new
+statements have none and run, rows of edited statements are not accepted and the statements run
+(`C18_input_list_edit_triggers_world`).  With the engine AS FOUND (no signature) the edited class is empty and the
+claim for input-list edits is false: `C18_graph_input_edit_ignored_asFound`.  NOT covered: an edit of the inputs of a
+PHONY statement that a kept statement refers to, of a generator statement, or of flags / depfile entries. -/
+theorem C18_world_invariant_graph (sem : Nat → Path → List (Option Content) → Content) (tg : List Command → List Path) :
+    ∀ (gs : List GStep) (st : List Command × World), wfFrom [] st.1 = true → WorldInv ⟨st.1, sem⟩ st.2 → GHistOk sem tg st gs →
+      wfFrom [] (gs.foldl (runGStep sem tg) st).1 = true ∧
+      WorldInv ⟨(gs.foldl (runGStep sem tg) st).1, sem⟩ (gs.foldl (runGStep sem tg) st).2 := by
+  intro gs
+  induction gs with
+  | nil => intro st hwf hinv _; exact ⟨hwf, hinv⟩
+  | cons g gs ih =>
+    intro st hwf hinv hok
+    obtain ⟨hg, hrest⟩ := hok
+    simp only [List.foldl_cons]
+    apply ih _ _ _ hrest
+    · cases g with
+      | step s => exact hwf
+      | graph cs' => exact hg.wf'
+    · cases g with
+      | step s =>
+        cases s with
+        | edit e => exact hinv.edit hwf hg
+        | build => exact hinv.build hwf _
+        | dropDb => exact hinv.dropDb
+      | graph cs' => exact worldInv_graph (m := ⟨st.1, sem⟩) (m' := ⟨cs', sem⟩) rfl hwf hinv hg
+
+/-- in particular: after any admissible history with graph edits, a build that reports no failure leaves the clean-build
+contents of the CURRENT manifest, and an immediate rebuild runs nothing -/
+theorem C18_converges_after_graph_edits (sem : Nat → Path → List (Option Content) → Content) (tg : List Command → List Path)
+    (cs0 : List Command) (hwf0 : wfFrom [] cs0 = true) (gs : List GStep) (hok : GHistOk sem tg (cs0, World.empty) gs) :
+    let st := gs.foldl (runGStep sem tg) (cs0, World.empty)
+    let m : Manifest := ⟨st.1, sem⟩
+    buildFailed (buildFull m (tg st.1) st.2).2 = false →
+    (∀ c ∈ m.cmds, c.phony = false → c.neededIn (demanded m (tg st.1)) = true → ∀ o ∈ c.outs,
+      (buildOnce m (tg st.1) st.2).1.content o =
+        cleanContent m (buildOnce m (tg st.1) st.2).1.cmdline (buildOnce m (tg st.1) st.2).1.content m.cmds.reverse o) ∧
+    (buildOnce m (tg st.1) (buildOnce m (tg st.1) st.2).1).2 = [] := by
+  intro st m hb
+  obtain ⟨hwf, hinv⟩ := C18_world_invariant_graph sem tg gs (cs0, World.empty) hwf0 (WorldInv.empty ⟨cs0, sem⟩) hok
+  exact ⟨fun c hc hp hn o ho => (C18_converges m hwf (tg st.1) st.2 hinv hb c hc hp hn o ho).2,
+    (C18_null_rebuild m hwf (tg st.1) st.2 hinv hb).1⟩
+
+/-! ### rule signatures: edits of a statement's input lists (F56, repaired) -/
+
+/-- what the extractor finds in `NinjaBuildCommandRule` (regenerated on every run): the rule signature combines the number
+of explicit inputs, the number of implicit inputs and the path of every input.  With the fix removed this is `[]`, this
+theorem and everything below that needs `sigDefault = true` fail, and the as-found witness is what remains. -/
+theorem C18_signature_tables : ruleSignatureFields = [.numExplicit, .numImplicit, .inputPaths] ∧ sigDefault = true := by
+  decide
+
+theorem sigOf_inj {c c' : Command} (h : c.sigInputs = true) (h' : c'.sigInputs = true) (he : sigOf c = sigOf c') :
+    c.exp = c'.exp ∧ c.imp = c'.imp ∧ c.oo = c'.oo := by
+  simp only [sigOf, h, h', ↓reduceIte, Sig.mk.injEq] at he
+  obtain ⟨h1, h2, h3⟩ := he
+  rw [List.append_assoc, List.append_assoc] at h3
+  obtain ⟨e1, h4⟩ := List.append_inj h3 h1
+  obtain ⟨e2, e3⟩ := List.append_inj h4 h2
+  exact ⟨e1, e2, e3⟩
+
+/-- **C18_input_list_edit_changes_signature**: in the configuration the extractor finds in the code, two statements whose
+explicit, implicit or order-only input lists differ have different rule signatures - so a row stored by the one is never
+accepted for, nor handed as prior value to, the other -/
+theorem C18_input_list_edit_changes_signature {c c' : Command} (h : c.sigInputs = sigDefault) (h' : c'.sigInputs = sigDefault)
+    (hedit : (c.exp, c.imp, c.oo) ≠ (c'.exp, c'.imp, c'.oo)) : sigOf c ≠ sigOf c' := by
+  have hd : sigDefault = true := C18_signature_tables.2
+  intro he
+  obtain ⟨e1, e2, e3⟩ := sigOf_inj (h.trans hd) (h'.trans hd) he
+  exact hedit (by rw [e1, e2, e3])
+
+/-- **C18_input_list_edit_triggers_world**: "manifest edits: a statement's inputs".  `c'` is a needed, real, non-generator
+statement of the current manifest; the database row under its rule key - if any - was stored by a statement `c` with
+OTHER explicit / implicit / order-only input lists (the command line may or may not have changed with them).  Then the
+next build that reports no failure EXECUTES `c'`; every input of `c'` - also a newly added generated one - is demanded, so
+its producer is needed and is brought up to date in the same build; and `c'` and those producers converge: their outputs
+hold what a clean build of the CURRENT manifest writes.  (`WorldInv` for the current manifest after such an edit:
+`C18_world_invariant_graph`.) -/
+theorem C18_input_list_edit_triggers_world (m : Manifest) (hwf : m.WF) (targets : List Path) (w : World) (hinv : WorldInv m w)
+    (hok : buildFailed (buildFull m targets w).2 = false) {c' : Command} (hc : c' ∈ m.cmds) (hp : c'.phony = false)
+    (hg : c'.generator = false) (hn : c'.neededIn (demanded m targets) = true) (hcfg' : c'.sigInputs = sigDefault)
+    {c : Command} (hcfg : c.sigInputs = sigDefault) (hrow : ∀ r, w.cmdDb c'.name = some r → r.sig = sigOf c)
+    (hedit : (c.exp, c.imp, c.oo) ≠ (c'.exp, c'.imp, c'.oo)) :
+    ⟨c'.name, true⟩ ∈ (buildOnce m targets w).2 ∧
+    (∀ o ∈ c'.outs, (buildOnce m targets w).1.content o =
+      cleanContent m (buildOnce m targets w).1.cmdline (buildOnce m targets w).1.content m.cmds.reverse o) ∧
+    ∀ k ∈ c'.exp ++ c'.imp ++ c'.oo, k ∈ demanded m targets ∧
+      ∀ q ∈ m.cmds, k ∈ q.outs → q.neededIn (demanded m targets) = true ∧ (q.phony = false → ∀ o ∈ q.outs,
+        (buildOnce m targets w).1.content o =
+          cleanContent m (buildOnce m targets w).1.cmdline (buildOnce m targets w).1.content m.cmds.reverse o) := by
+  have hstale : ∀ wi : World, wi.cmdDb c'.name = w.cmdDb c'.name → ∀ r, wi.cmdDb c'.name = some r → r.sig ≠ sigOf c' :=
+    fun wi hdb r hr => by
+      rw [hdb] at hr
+      rw [hrow r hr]
+      exact C18_input_list_edit_changes_signature hcfg hcfg' hedit
+  refine ⟨runsOf_executed (must_run m hwf targets w hok hc hp hn ?_),
+    fun o ho => (C18_converges m hwf targets w hinv hok c' hc hp hn o ho).2, fun k hk => ?_⟩
+  · intro wi hdb _ _
+    constructor
+    · unfold needsTask
+      cases hr : wi.cmdDb c'.name with
+      | none => rfl
+      | some r =>
+        have : (r.sig != sigOf c') = true := by simpa using hstale wi hdb r hr
+        simp [this]
+    · apply shortcut_false_of_prior (show (kOf wi c').generator = false from hg)
+      intro v hv _
+      rw [priorRow_none_of_stale (hstale wi hdb)] at hv
+      cases hv
+  · have hkd : k ∈ demanded m targets := demanded_closed m hwf targets hc hn k (by
+      simp only [insAll, List.mem_append] at hk ⊢
+      rcases hk with (h | h) | h <;> simp [h])
+    refine ⟨hkd, fun q hq hkq => ?_⟩
+    have hqn := needed_of_demanded hkq hkd
+    exact ⟨hqn, fun hqp o ho => (C18_converges m hwf targets w hinv hok q hq hqp hqn o ho).2⟩
 
 /-! ### the update-if-newer shortcut -/
 
@@ -482,5 +830,156 @@ executed again, the generator command 4 is declared up to date from its time sta
 example : (buildFull exM exT (runSteps exM exT (exHist.take 5 ++ [.dropDb]))).2 =
     [(0, .executed), (1, .executed), (2, .executed), (3, .executed), (4, .updated)] ∧
     buildFailed (buildFull exM exT (runSteps exM exT (exHist.take 5 ++ [.dropDb]))).2 = false := by decide +kernel
+
+/-! ### non-vacuity of the converse theorems and of the graph-edit theorems -/
+
+/-- editing the implicit input 1 of command 0 (in the world after the first build): the hypotheses of
+`C18_implicit_input_triggers_world` hold; computed: commands 0 1 2 3 run -/
+example : buildFailed (buildFull exM exT (applyEdit (exW 5) (.write 1 [200]))).2 = false ∧
+    (buildOnce exM exT (applyEdit (exW 5) (.write 1 [200]))).2 = [⟨0, true⟩, ⟨1, true⟩, ⟨2, true⟩, ⟨3, true⟩] := by decide +kernel
+example := C18_implicit_input_triggers_world exM (by decide) exT (exW 5) (exInv 5) (s := 1) (by decide) (x := [200])
+  (Or.inl rfl) (by decide +kernel) (c := { name := 0, outs := [10], exp := [0], imp := [1] }) (by decide) rfl (by decide +kernel) (by decide)
+/-- ... and command 1, which reads the file 10 that this build rewrote: `C18_rewritten_input_triggers_world` -/
+example := C18_rewritten_input_triggers_world exM (by decide) exT (applyEdit (exW 5) (.write 1 [200]))
+  ((exInv 5).edit (by decide) (by decide)) (by decide +kernel)
+  (before := [{ name := 0, outs := [10], exp := [0], imp := [1] }]) (c := exC1) rfl rfl (by decide +kernel) (f := 10) (by decide)
+  (by decide +kernel)
+
+/-- a depfile-discovered input: command 0 lists file 2 as an order-only input only, but reads it and names it in its
+depfile.  Touching 2 re-runs it (in `exM`, where 2 is order-only and nothing more, it does not: `C18_order_only_world`) -/
+def exD : Manifest :=
+  { cmds := [{ name := 0, outs := [10], exp := [0], oo := [2], deps := [2], hasDeps := true }], sem := encSem }
+
+example :
+    let w := runSteps exD [10] [.edit (.write 0 [100]), .edit (.write 2 [102]), .build]
+    exD.WF ∧ buildFailed (buildFull exD [10] (applyEdit w (.write 2 [103]))).2 = false ∧
+    (buildOnce exD [10] (applyEdit w (.write 2 [103]))).2 = [⟨0, true⟩] := by decide +kernel
+
+/-- restat pruning: command 0 (restat-style) writes the same content whatever its input holds; after an edit of the
+input it is executed, its output keeps content and stamp, and its dependent, command 1, does not run -/
+def exR : Manifest :=
+  { cmds := [{ name := 0, outs := [10], exp := [0], restat := true }, { name := 1, outs := [11], exp := [10] }],
+    sem := fun h o rs => if o = 10 then [9] else encSem h o rs }
+
+def exRw : World := runSteps exR [11] [.edit (.write 0 [100]), .build, .edit (.write 0 [101])]
+
+example : exR.WF ∧ (buildFull exR [11] exRw).2 = [(0, .executed)] ∧ buildFailed (buildFull exR [11] exRw).2 = false ∧
+    needsTask exR.cmds exRw { name := 1, outs := [11], exp := [10] } = false ∧
+    (buildOnce exR [11] exRw).1.files 10 = exRw.files 10 := by decide +kernel
+
+theorem exRinv : WorldInv exR exRw :=
+  (C18_world_invariant exR (by decide) [11]).2.2.2.2 _ (by decide)
+
+def exRc0 : Command := { name := 0, outs := [10], exp := [0], restat := true }
+def exRc1 : Command := { name := 1, outs := [11], exp := [10] }
+
+theorem exRrow : ∃ r, exRw.cmdDb exRc0.name = some r ∧
+    commandIsResultValid (kOf exRw exRc0) r.value (exRc0.outs.map exRw.info) = .valid ∧ r.value.hash = exRw.cmdline exRc0.name := by
+  have h : (exRw.cmdDb exRc0.name).any (fun r => decide (commandIsResultValid (kOf exRw exRc0) r.value (exRc0.outs.map exRw.info) = .valid) &&
+      decide (r.value.hash = exRw.cmdline exRc0.name)) = true := by decide +kernel
+  cases hr : exRw.cmdDb exRc0.name with
+  | none => rw [hr] at h; cases h
+  | some r =>
+    rw [hr] at h
+    simp only [Option.any_some, Bool.and_eq_true, decide_eq_true_eq] at h
+    exact ⟨r, rfl, h.1, h.2⟩
+
+/-- `C18_restat_prunes_world` applies: the dependent of the restat command is not run -/
+example : ∀ x, (exRc1.name, x) ∉ (buildFull exR [11] exRw).2 :=
+  (C18_restat_prunes_world exR (by decide) [11] exRw exRinv (by decide +kernel) (d := exRc1) (by decide) (by decide +kernel)
+    (fun k hk hn => by
+      simp [depKeys, exRc1] at hk; subst hk
+      exact absurd hn (by decide))
+    (fun k hk q hq hkq => by
+      simp [depKeys, exRc1] at hk; subst hk
+      have hq0 : q = exRc0 := by
+        simp [exR] at hq
+        rcases hq with rfl | rfl
+        · rfl
+        · simp at hkq
+      subst hq0
+      exact ⟨rfl, rfl, exRrow, by decide +kernel⟩)).1
+
+/-! ### graph edits: an admissible history, and the input-list edit that is not -/
+
+def exG0 : List Command := [{ name := 0, outs := [10], exp := [0] }, { name := 1, outs := [11], exp := [10] }]
+/-- a statement is added (reading an existing output), the leaf statement 1 is removed -/
+def exG1 : List Command := exG0 ++ [{ name := 2, outs := [12], exp := [10], imp := [1] }]
+def exG2 : List Command := [{ name := 0, outs := [10], exp := [0] }, { name := 2, outs := [12], exp := [10], imp := [1] }]
+
+def exRoots (cs : List Command) : List Path :=
+  (cs.flatMap (·.outs)).filter fun o => !(cs.any fun c => (c.exp ++ c.imp ++ c.oo).contains o)
+
+def exGHist : List GStep :=
+  [.step (.edit (.write 0 [100])), .step (.edit (.write 1 [101])), .step .build, .graph exG1, .step .build, .graph exG2, .step .build]
+
+/-- the history is admissible (`GHistOk`); the builds after the graph edits run the new statement only, then nothing, and
+the row of the removed statement 1 is still in the database -/
+example : GHistOk encSem exRoots (exG0, World.empty) exGHist := by decide +kernel
+example :
+    let st5 := (exGHist.take 4).foldl (runGStep encSem exRoots) (exG0, World.empty)
+    let st7 := (exGHist.take 6).foldl (runGStep encSem exRoots) (exG0, World.empty)
+    (buildFull ⟨st5.1, encSem⟩ (exRoots st5.1) st5.2).2 = [(2, .executed)] ∧
+    (buildFull ⟨st7.1, encSem⟩ (exRoots st7.1) st7.2).2 = [] ∧ (st7.2.cmdDb 1).isSome = true := by decide +kernel
+example := C18_converges_after_graph_edits encSem exRoots exG0 (by decide) (exGHist.take 6) (by decide +kernel) (by decide +kernel)
+
+/-- the statement list with a further input-list edit, of a statement that a kept statement reads from: statement 0 gets
+the implicit input 1 (its command line - `World.cmdline` - stays); then statement 3 is added and its output becomes an
+implicit input of statement 2 (a newly added GENERATED input) -/
+def exG3 : List Command := [{ name := 0, outs := [10], exp := [0], imp := [1] }, { name := 2, outs := [12], exp := [10], imp := [1] }]
+def exG4 : List Command :=
+  [{ name := 0, outs := [10], exp := [0], imp := [1] }, { name := 3, outs := [13], exp := [1] },
+   { name := 2, outs := [12], exp := [10], imp := [1, 13] }]
+
+def exGHist2 : List GStep := exGHist ++ [.graph exG3, .step .build, .step (.edit (.write 1 [111])), .step .build, .graph exG4, .step .build]
+
+/-- admissible (statement 0 is EDITED, statement 2 KEPT over an edited producer; then 3 is FRESH and 2 EDITED); the build
+after the first edit executes 0 and - its input was rewritten - 2; an edit of the new input 1 re-runs both; the build after
+the second edit executes the new producer 3 and the edited statement 2, not the untouched 0 -/
+example : GHistOk encSem exRoots (exG0, World.empty) exGHist2 := by decide +kernel
+example :
+    let st8 := (exGHist2.take 8).foldl (runGStep encSem exRoots) (exG0, World.empty)
+    let st10 := (exGHist2.take 10).foldl (runGStep encSem exRoots) (exG0, World.empty)
+    let st12 := (exGHist2.take 12).foldl (runGStep encSem exRoots) (exG0, World.empty)
+    (buildFull ⟨st8.1, encSem⟩ (exRoots st8.1) st8.2).2 = [(0, .executed), (2, .executed)] ∧
+    (buildFull ⟨st10.1, encSem⟩ (exRoots st10.1) st10.2).2 = [(0, .executed), (2, .executed)] ∧
+    (buildFull ⟨st12.1, encSem⟩ (exRoots st12.1) st12.2).2 = [(3, .executed), (2, .executed)] := by decide +kernel
+example := C18_converges_after_graph_edits encSem exRoots exG0 (by decide) (exGHist2.take 8) (by decide +kernel) (by decide +kernel)
+example := C18_converges_after_graph_edits encSem exRoots exG0 (by decide) (exGHist2.take 12) (by decide +kernel) (by decide +kernel)
+
+/-- **C18_graph_input_edit_repaired**: the history of finding F56 in the configuration extracted from the code.  Statement
+0 (`0 → 10`) gets the implicit input 1; its command line does not change.  The edit is admissible (`GraphOk`), the next
+build executes the statement and leaves the clean-build content of the new manifest, the build after it runs nothing, and
+an edit of the new input runs the statement again. -/
+theorem C18_graph_input_edit_repaired :
+    let cs1 : List Command := [{ name := 0, outs := [10], exp := [0] }]
+    let cs2 : List Command := [{ name := 0, outs := [10], exp := [0], imp := [1] }]
+    let w := runSteps ⟨cs1, encSem⟩ [10] [.edit (.write 0 [100]), .edit (.write 1 [101]), .build]
+    let m2 : Manifest := ⟨cs2, encSem⟩
+    m2.WF ∧ GraphOk cs1 cs2 w ∧
+    (buildFull m2 [10] w).2 = [(0, .executed)] ∧
+    (buildOnce m2 [10] w).1.content 10 = cleanContent m2 (buildOnce m2 [10] w).1.cmdline (buildOnce m2 [10] w).1.content cs2.reverse 10 ∧
+    (buildFull m2 [10] (buildOnce m2 [10] w).1).2 = [] ∧
+    (buildFull m2 [10] (applyEdit (buildOnce m2 [10] w).1 (.write 1 [102]))).2 = [(0, .executed)] := by
+  decide +kernel
+
+/-- **C18_graph_input_edit_ignored_asFound** (finding F56): with the engine AS FOUND - rules without a signature:
+`sigInputs := false` - the full-strength reading "after ANY manifest edit `llbuild ninja build` leaves the clean-build
+contents" is FALSE of the model, as it was of the code.  Statement 0 (`0 → 10`) gets the implicit input 1; its command
+line - the only thing the stored result is compared with - does not change.  The edit is not `GraphOk` (the statement is
+neither kept nor new: it has a row under the only signature there is).  The next build starts no task at all (the scan
+walks the STORED dependency list, which does not name 1), exits 0, and output 10 is not what a clean build of the new
+manifest writes; editing the new input 1 afterwards STILL runs nothing.  Real tool before commit 0a181eb: same
+(notes/C18.md, F56; Ninja rebuilds).  Repair: the rule signature covers the input lists - `C18_graph_input_edit_repaired`. -/
+theorem C18_graph_input_edit_ignored_asFound :
+    let cs1 : List Command := [{ name := 0, outs := [10], exp := [0], sigInputs := false }]
+    let cs2 : List Command := [{ name := 0, outs := [10], exp := [0], imp := [1], sigInputs := false }]
+    let w := runSteps ⟨cs1, encSem⟩ [10] [.edit (.write 0 [100]), .edit (.write 1 [101]), .build]
+    let m2 : Manifest := ⟨cs2, encSem⟩
+    m2.WF ∧ ¬ GraphOk cs1 cs2 w ∧
+    (buildFull m2 [10] w).2 = [] ∧ buildFailed (buildFull m2 [10] w).2 = false ∧
+    (buildOnce m2 [10] w).1.content 10 ≠ cleanContent m2 (buildOnce m2 [10] w).1.cmdline (buildOnce m2 [10] w).1.content cs2.reverse 10 ∧
+    (buildFull m2 [10] (applyEdit (buildOnce m2 [10] w).1 (.write 1 [102]))).2 = [] := by
+  decide +kernel
 
 end LLBuild.NinjaWorld
